@@ -72,13 +72,17 @@ func c06Decode(e reg.Entry, b []byte, rev int, auto bool) (kind, detail string) 
 	return "", ""
 }
 
-var c06Huge = []uint64{0, 1, 127, 128, 255, 256, 65535, 65536, 1<<31 - 1, 1 << 31, 1 << 32, 1 << 40, 1 << 62, 1 << 63, ^uint64(0)}
+// c06Huge: lengths, counts and offsets a hostile peer may claim: the varint and fixed-width
+// boundaries, and the neighbourhoods of the signed limits, where "position + length"
+// computed in int wraps around (2^63-1-k overflows as soon as k bytes are already held).
+var c06Huge = []uint64{0, 1, 127, 128, 255, 256, 65535, 65536, 1<<31 - 1, 1 << 31, 1<<32 - 1, 1 << 32, 1 << 40, 1 << 62,
+	1<<63 - 256, 1<<63 - 16, 1<<63 - 8, 1<<63 - 4, 1<<63 - 3, 1<<63 - 2, 1<<63 - 1, 1 << 63, 1<<63 + 1, ^uint64(0) - 1, ^uint64(0)}
 
 func uvar(v uint64) []byte { return binary.AppendUvarint(nil, v) }
 
 // C06 — hostile or corrupted input yields an error, never a crash or bad column.
 func C06(c *vk.Ctx) {
-	c.Rule("corpus = one valid block per registry composition (rows built from the boundary alphabet; for LowCardinality compositions also the same block as a server may write it, with 16- and 64-bit keys) at revision 54460 and the C17 messages; mutations: (a) every byte offset x {8 bit flips, 00, FF}; (b) at every byte offset an 8-byte little-endian field overwritten with each of {0, 1, 127, 128, 255, 256, 65535, 65536, 2^31-1, 2^31, 2^32, 2^40, 2^62, 2^63, 2^64-1} (offsets, dictionary sizes, key counts, LowCardinality meta) and the byte replaced by the varint encoding of the same values (row / column counts, string lengths); (c) splices: prefix of one block + suffix of another block of the same column at every offset. Each mutant is decoded through the typed target and through Auto in a worker with a 3 GiB address-space limit and the block row cap lowered to 65536; oracle: returns (watchdog 30 s), no panic, process survives, and on success every column reports the block's row count and Row(i) works for all i. distinct_nontrivial = mutants evaluated (each is a distinct byte string by construction).")
+	c.Rule("corpus = one valid block per registry composition (rows built from the boundary alphabet; for LowCardinality compositions also the same block as a server may write it, with 16- and 64-bit keys) at revision 54460 and the C17 messages; mutations: (a) every byte offset x {8 bit flips, 00, FF}; (b) at every byte offset an 8-byte little-endian field overwritten with each of {0, 1, 127, 128, 255, 256, 65535, 65536, 2^31-1, 2^31, 2^32-1, 2^32, 2^40, 2^62, 2^63-256, 2^63-16, 2^63-8, 2^63-4, 2^63-3, 2^63-2, 2^63-1, 2^63, 2^63+1, 2^64-2, 2^64-1} (offsets, dictionary sizes, key counts, LowCardinality meta) and the byte replaced by the varint encoding of the same values (row / column counts, string lengths); (c) splices: prefix of one block + suffix of another block of the same column at every offset. Each mutant is decoded through the typed target and through Auto in a worker with a 3 GiB address-space limit and the block row cap lowered to 65536; oracle: returns (watchdog 30 s), no panic, process survives, and on success every column reports the block's row count and Row(i) works for all i. distinct_nontrivial = mutants evaluated (each is a distinct byte string by construction).")
 	c.Watchdog(30*time.Second, "C06/does-not-terminate")
 	rev := 54460
 	quick := c.Quick()
